@@ -736,3 +736,133 @@ Proof.
   split; [vm_compute; reflexivity|]. split; [vm_compute; reflexivity|].
   split; [vm_compute; reflexivity|]. split; [vm_compute; reflexivity|]. discriminate.
 Qed.
+
+(* ---------- scenarios with more than 64 actions: encodings of several words are never type-cast ---------- *)
+
+Definition multiword (sm : list srow) : bool :=
+  forallb (fun r => existsb (Ascii.eqb ":"%char) (chars (r_enc r))) (tl sm).
+
+Lemma multiword_stable : forall asis sm, wf_summary asis sm = true -> multiword sm = true ->
+  encodings_stable sm = true.
+Proof.
+  intros asis sm Hwf Hm. unfold encodings_stable. apply forallb_forall. intros r Hin.
+  unfold multiword in Hm. rewrite forallb_forall in Hm. specialize (Hm r Hin).
+  apply existsb_exists in Hm. destruct Hm as [c [Hc Heq]]. apply Ascii.eqb_eq in Heq. subst c.
+  apply colon_encoding_stable; [|exact Hc].
+  destruct sm as [|r0 rest]; [discriminate|]. cbn [tl] in Hin. cbn [wf_summary] in Hwf.
+  repeat (apply andb_prop in Hwf; destruct Hwf as [Hwf ?]).
+  match goal with Hf : forallb (row_ok _) _ = true |- _ => rewrite forallb_forall in Hf; specialize (Hf r (or_intror Hin)) end.
+  unfold row_ok in *. repeat match goal with Hf : _ && _ = true |- _ => apply andb_prop in Hf; destruct Hf as [Hf ?] end.
+  assumption.
+Qed.
+
+Lemma c13_round_trip_multiword : forall cast fmt asis sm r, cast_agrees cast -> fmt_agrees fmt ->
+  wf_summary asis sm = true -> multiword sm = true -> In r (tl sm) ->
+  exists st' st'',
+    post_solutions cast fmt asis fresh (CsvRecords (marshal_records (map fst asis) sm)) = Ok (S200, st') /\
+    get_solution fmt st' (r_label r) = Ok (Decoded (r_enc r) (r_note r), st'').
+Proof.
+  intros cast fmt asis sm r Hc Hf Hwf Hm Hin.
+  apply (c13_round_trip cast fmt asis sm r Hc Hf Hwf (multiword_stable asis sm Hwf Hm) Hin).
+Qed.
+
+(* ---------- the value texts the marshaller writes ("%.3f") are numbers for the caster (unbounded) ---------- *)
+
+Local Open Scope char_scope.
+Local Open Scope list_scope.
+
+Definition digits_val (acc : Z) (ds : list ascii) : Z := fold_left (fun a d => (a * 10 + digit_val d)%Z) ds acc.
+
+Lemma read_digits_app : forall ds acc n rest, forallb is_digit ds = true ->
+  match rest with [] => True | c :: _ => is_digit c = false end ->
+  read_digits acc n (ds ++ rest) = (digits_val acc ds, n + len ds, rest).
+Proof.
+  intros ds; induction ds as [|d ds IH]; intros acc n rest Hd Hr.
+  - cbn [app digits_val fold_left len]. rewrite Nat.add_0_r. destruct rest as [|c r]; [reflexivity|].
+    cbn [read_digits]. rewrite Hr. reflexivity.
+  - cbn [forallb] in Hd. apply andb_prop in Hd. destruct Hd as [Hd1 Hd2].
+    cbn [app read_digits]. rewrite Hd1. rewrite (IH _ _ rest Hd2 Hr). cbn [digits_val fold_left len].
+    f_equal. f_equal. lia.
+Qed.
+
+Lemma digit_facts : forall c, is_digit c = true ->
+  Ascii.eqb c "_" = false /\ Ascii.eqb c "+" = false /\ Ascii.eqb c "-" = false /\ Ascii.eqb c "." = false /\
+  in_class ["i"; "I"; "n"; "N"] c = false /\ in_class ["x"; "X"] c = false /\ is_e c = false.
+Proof.
+  intros c H.
+  destruct c as [[] [] [] [] [] [] [] []]; vm_compute in H; try discriminate H; vm_compute; repeat split; reflexivity.
+Qed.
+
+Lemma digits_no_underscore : forall ds, forallb is_digit ds = true -> in_class ds "_" = false.
+Proof.
+  intros ds; induction ds as [|c s IH]; intro H; [reflexivity|].
+  cbn [forallb] in H. apply andb_prop in H. destruct H as [Hc Hs].
+  unfold in_class. cbn [existsb]. rewrite Ascii.eqb_sym. destruct (digit_facts c Hc) as [-> _]. exact (IH Hs).
+Qed.
+
+Definition vtext_mantissa (v : vtext) : Z := digits_val (digits_val 0 (v_int v)) (v_frac v).
+Definition vtext_value (v : vtext) : Q := dec_value (vtext_mantissa v) (0 - Z.of_nat (len (v_frac v))).
+Definition vtext_in_range (v : vtext) : bool := negb (overflows (vtext_value v)).
+
+Lemma in_class_app : forall a b c, in_class (a ++ b) c = in_class a c || in_class b c.
+Proof. intros a b c. unfold in_class. apply existsb_app. Qed.
+
+Lemma vtext_parse : forall v, vtext_ok v = true ->
+  modelled (chars (vtext_string v)) = true /\
+  parse_dec (chars (vtext_string v)) = Some (v_neg v, vtext_mantissa v, (0 - Z.of_nat (len (v_frac v)))%Z).
+Proof.
+  intros [neg ds fr] H. unfold vtext_ok in H. cbn [v_neg v_int v_frac] in *.
+  apply andb_prop in H. destruct H as [H Hfr]. apply andb_prop in H. destruct H as [Hds Hne].
+  apply negb_true_iff in Hne. apply Nat.eqb_neq in Hne.
+  unfold vtext_string, chars. rewrite list_ascii_of_string_of_list_ascii. cbn [v_neg v_int v_frac].
+  destruct ds as [|d ds']; [exfalso; apply Hne; reflexivity|].
+  pose proof Hds as Hds0. cbn [forallb] in Hds. apply andb_prop in Hds. destruct Hds as [Hd Hds'].
+  destruct (digit_facts d Hd) as [_ [Hplus [Hminus [_ [Hin [_ _]]]]]].
+  (* the part after the sign *)
+  assert (Hbody_sign : read_sign ((d :: ds') ++ "." :: fr) = (false, (d :: ds') ++ "." :: fr)).
+  { cbn [app read_sign]. rewrite Hplus, Hminus. reflexivity. }
+  assert (Hm : read_mantissa ((d :: ds') ++ "." :: fr) =
+               Some (digits_val (digits_val 0 (d :: ds')) fr, len fr, [])).
+  { unfold read_mantissa. rewrite (read_digits_app (d :: ds') 0 0 ("." :: fr) Hds0 eq_refl).
+    replace (Ascii.eqb "." ".") with true by reflexivity.
+    pose proof (read_digits_app fr (digits_val 0 (d :: ds')) 0 [] Hfr I) as Hf. rewrite app_nil_r in Hf. rewrite Hf.
+    match goal with |- context [Nat.eqb ?a 0] =>
+      replace (Nat.eqb a 0) with false by (symmetry; apply Nat.eqb_neq; cbn [len]; lia) end.
+    reflexivity. }
+  assert (Hnounder : in_class ((d :: ds') ++ "." :: fr) "_" = false).
+  { rewrite in_class_app, (digits_no_underscore _ Hds0). cbn [orb].
+    change (in_class ("." :: fr) "_") with (Ascii.eqb "_" "." || in_class fr "_").
+    rewrite (digits_no_underscore _ Hfr). reflexivity. }
+  assert (Hsecond : match ds' ++ "." :: fr with x :: _ => in_class ["x"; "X"] x | [] => false end = false).
+  { destruct ds' as [|d2 ds'']; [reflexivity|]. cbn [forallb] in Hds'. apply andb_prop in Hds'. destruct Hds' as [Hd2 _].
+    cbn [app]. destruct (digit_facts d2 Hd2) as [_ [_ [_ [_ [_ [Hx _]]]]]]. exact Hx. }
+  destruct neg; cbn [app].
+  - split.
+    + unfold modelled.
+      change (in_class ("-" :: d :: ds' ++ "." :: fr) "_") with (Ascii.eqb "_" "-" || in_class ((d :: ds') ++ "." :: fr) "_").
+      rewrite Hnounder. cbn [orb negb andb].
+      change (snd (read_sign ("-" :: d :: ds' ++ "." :: fr))) with (d :: ds' ++ "." :: fr).
+      cbv beta iota. rewrite Hin, Hsecond. rewrite andb_false_r. reflexivity.
+    + unfold parse_dec.
+      change (read_sign ("-" :: d :: ds' ++ "." :: fr)) with (true, (d :: ds') ++ "." :: fr).
+      cbv beta iota. rewrite Hm. reflexivity.
+  - split.
+    + unfold modelled. change (d :: ds' ++ "." :: fr) with ((d :: ds') ++ "." :: fr). rewrite Hnounder. cbn [negb andb].
+      rewrite Hbody_sign. cbn [snd app]. rewrite Hin, Hsecond. rewrite andb_false_r. reflexivity.
+    + unfold parse_dec. change (d :: ds' ++ "." :: fr) with ((d :: ds') ++ "." :: fr). rewrite Hbody_sign.
+      cbv beta iota. rewrite Hm. reflexivity.
+Qed.
+
+Lemma vtext_is_number : forall v, vtext_ok v = true -> vtext_in_range v = true ->
+  is_number (vtext_string v) = true.
+Proof.
+  intros v Hok Hr. destruct (vtext_parse v Hok) as [Hm Hp].
+  unfold is_number, go_cast. rewrite Hm, Hp. cbn [negb].
+  destruct (vtext_mantissa v =? 0)%Z eqn:E0; [reflexivity|].
+  replace (400 <? 0 - Z.of_nat (len (v_frac v)))%Z with false by (symmetry; apply Z.ltb_ge; lia).
+  assert (Hlen : (Z.of_nat (len (v_frac v)) <= Z.of_nat (len (chars (vtext_string v))))%Z).
+  { unfold vtext_string, chars. rewrite list_ascii_of_string_of_list_ascii. rewrite !app_length. cbn [len]. lia. }
+  replace (0 - Z.of_nat (len (v_frac v)) <? -400 - Z.of_nat (len (chars (vtext_string v))))%Z with false
+    by (symmetry; apply Z.ltb_ge; lia).
+  unfold vtext_in_range, vtext_value in Hr. apply negb_true_iff in Hr. rewrite Hr. reflexivity.
+Qed.
